@@ -69,7 +69,7 @@ def run(ctx):
         ctx.tlc_expect_ok("treeorder", "TreeOrder", "TreeOrder_mc.cfg", timeout=1200)
     # 2. spec -> code
     if thorough:
-        emit_and_replay(ctx, "TreeOrderGen_q.cfg", {}, test_env={"VERIF_SIGNED_EVERY": 4})
+        emit_and_replay(ctx, "TreeOrderGen_qd_t.cfg", {}, test_env={"VERIF_SIGNED_EVERY": 6})   # = _q + duplicated ids
         emit_and_replay(ctx, "TreeOrderGen_t.cfg", {}, timeout=3000, test_env={"VERIF_SIGNED_EVERY": 25})
         emit_and_replay(ctx, "TreeOrderGen_sim.cfg", {}, simulate=250, depth=11, timeout=3000, test_env={"VERIF_SIGNED_EVERY": 10})
         # every <rejected delivery to a multi-head tree, next step> of the <= 4-change graph (single-change deliveries)
